@@ -240,8 +240,8 @@ impl Check for C19 {
     }
     fn runs(&self, tier: Tier) -> u64 {
         match tier {
-            Tier::Quick => 10_000,
-            Tier::Thorough => 600_000,
+            Tier::Quick => 250_000,
+            Tier::Thorough => 7_500_000,
         }
     }
 
